@@ -28,7 +28,7 @@ def run(ctx):
     ctx.translate(COMPONENTS)
     ctx.prove('props/C07.v')
     L.lockstep(ctx, [L.mon_c07])
-    L.nested_sweep(ctx, ('drops', 'outcome'))
+    L.nested_sweep(ctx, ('drops', 'outcome', 'panic'))
     L.histories(ctx, 500 if ctx.tier == 'quick' else 5000)
     # model-side search: the only way to exhibit a weak-memory failure (runs always; finds nothing while the theorems hold)
     L.ra_search(ctx, 3000 if ctx.tier == 'quick' else 100000)
